@@ -42,9 +42,15 @@ const schemaSDL = `
 scalar Any
 enum Color { RED GREEN BLUE }
 input In { s: String, i: Int, f: Float, b: Boolean, e: Color, l: [String], n: In, any: Any, li: [In], ll: [[Int]] }
+input E { s: String = "es", z: String = "", i: Int = 3, i0: Int = 0, f: Float = 0.5, b: Boolean = true, c: Boolean = false, e: Color = BLUE,
+  l: [Int] = [9], le: [String] = [], any: Any = "a", id: ID = "e1", p: String, r: E, rl: [E] }
+input D { s: String = "anonymous", z: String = "", i: Int = 7, i0: Int = 0, f: Float = 1.5, f0: Float = 0.0, b: Boolean = true, c: Boolean = false,
+  e: Color = GREEN, id: ID = "id0", any: Any = {k: [1]}, l: [String] = ["x", "y"], le: [String] = [], ll: [[Int]] = [[1], []],
+  n: E = {s: "ns", i: 0}, ne: E = {}, m: E, dl: [D], el: [E] = [{i: 1}, {}], nn: Int! = 5, sn: String = null, p: String }
 type Query {
   f(a: Any, s: String, i: In, la: [Any]): String
   h(p0: Any, p1: Any, p2: Any, p3: Any, p4: Any, p5: Any): String
+  g(d: D, dl: [D], lld: [[D]]): String
 }
 schema { query: Query }
 `
@@ -624,7 +630,7 @@ func (r *recorder) RoundTrip(req *http.Request) (*http.Response, error) {
 	}
 	r.bodies = append(r.bodies, b)
 	return &http.Response{StatusCode: 200, Header: http.Header{"Content-Type": []string{"application/json"}},
-		Body: io.NopCloser(bytes.NewBufferString(`{"data":{"f":"ok","h":"ok"}}`))}, nil
+		Body: io.NopCloser(bytes.NewBufferString(`{"data":{"f":"ok","h":"ok","g":"ok"}}`))}, nil
 }
 
 type impl struct {
@@ -632,6 +638,7 @@ type impl struct {
 	eng *engine.ExecutionEngine
 	rec *recorder
 	ctx context.Context
+	isch []iobj
 }
 
 func newImpl() *impl {
@@ -666,7 +673,7 @@ func newImpl() *impl {
 		panic(err)
 	}
 	ds, err := plan.NewDataSourceConfiguration[graphql_datasource.Configuration]("sg", factory,
-		&plan.DataSourceMetadata{RootNodes: []plan.TypeField{{TypeName: "Query", FieldNames: []string{"f", "h"}}}}, cc)
+		&plan.DataSourceMetadata{RootNodes: []plan.TypeField{{TypeName: "Query", FieldNames: []string{"f", "h", "g"}}}}, cc)
 	if err != nil {
 		panic(err)
 	}
@@ -682,6 +689,7 @@ func newImpl() *impl {
 	conf.SetFieldConfigurations(plan.FieldConfigurations{
 		{TypeName: "Query", FieldName: "f", Path: []string{"f"}, Arguments: args("a", "s", "i", "la")},
 		{TypeName: "Query", FieldName: "h", Path: []string{"h"}, Arguments: args("p0", "p1", "p2", "p3", "p4", "p5")},
+		{TypeName: "Query", FieldName: "g", Path: []string{"g"}, Arguments: args("d", "dl", "lld")},
 	})
 	eng, err := engine.NewExecutionEngine(ctx, abstractlogger.Noop{}, conf, resolve.ResolverOptions{MaxConcurrency: 8})
 	if err != nil {
@@ -1183,6 +1191,7 @@ func bindingsOf(cv string) []varBinding {
 //	lit   <value>  "<client variables>"
 //	dflt  <wraps>  <default value>  "<client variables>"
 //	raw   "<literal source>"
+//	inp   <lit|var|vdef>  <d|dl|lld>  <value>
 func (im *impl) corpusLine(r *common.Rand, line string) (string, bool) {
 	parts := strings.Split(line, "\t")
 	unq := func(s string) string {
@@ -1223,6 +1232,22 @@ func (im *impl) corpusLine(r *common.Rand, line string) (string, bool) {
 			return "", false
 		}
 		return im.rawCase(unq(parts[1])), true
+	case "inp":
+		// inp <lit|var|vdef> <d|dl|lld> <value>
+		if len(parts) < 4 {
+			return "", false
+		}
+		i := 0
+		v := valOfSx(parseSx(parts[3], &i))
+		if v == nil {
+			return "", false
+		}
+		for a := range inpArgs {
+			if inpArgs[a].arg == parts[2] {
+				return im.inpCase(r, parts[1], a, v), true
+			}
+		}
+		return "", false
 	}
 	return "", false
 }
@@ -1241,8 +1266,11 @@ func main() {
 		r := common.NewRand(common.ArgU64(a, "seed", 1))
 		n := common.ArgInt(a, "n", 1000)
 		l3every := common.ArgInt(a, "l3every", 1)
+		out.Line(im.schemaLine())
 		for i := 0; i < n; i++ {
-			switch k := r.Pick(20); {
+			switch k := r.Pick(24); {
+			case k >= 20:
+				out.Line(im.genInp(r))
 			case k < 12:
 				v := genLiteral(r, genOpts{allowVars: true})
 				var bs []varBinding
@@ -1267,6 +1295,7 @@ func main() {
 		defer f.Close()
 		sc := bufio.NewScanner(f)
 		sc.Buffer(make([]byte, 1<<20), 1<<20)
+		out.Line(im.schemaLine())
 		for sc.Scan() {
 			line := sc.Text()
 			if strings.HasPrefix(line, "#") || strings.TrimSpace(line) == "" {
